@@ -113,7 +113,8 @@ theorem upper_replace_comm (s : Str) :
     · have : asciiUpper c ≠ '_' := fun h => hc ((asciiUpper_eq_us c).1 h)
       simp [hc, this]
 
-/-- `toAsciiUpper s == s` means every character is fixed by upper-casing -/
+/-- `toAsciiUpper s == s` means every character is fixed by upper-casing (the all-capitals test
+before the `fix:` commit 8f4a2d5; kept for the bridge `isAllUpper_ascii`) -/
 theorem allUpper_fixed (s : Str) (h : (toAsciiUpper s == s) = true) : ∀ c ∈ s, asciiUpper c = c := by
   have h' : toAsciiUpper s = s := eq_of_beq h
   induction s with
@@ -125,6 +126,68 @@ theorem allUpper_fixed (s : Str) (h : (toAsciiUpper s == s) = true) : ∀ c ∈ 
     rcases hc with rfl | hc
     · exact h'.1
     · exact ih (by simpa [toAsciiUpper] using h'.2) h'.2 c hc
+
+/-! the all-capitals test since the `fix:` commit 8f4a2d5: `isAllUpper U s = !(s.any U.isLower)` -/
+
+/-- the test says: no character is a lowercase letter -/
+theorem isAllUpper_iff (U : UnicodeOps) (s : Str) :
+    isAllUpper U s = true ↔ ∀ c ∈ s, U.isLower c = false := by
+  simp [isAllUpper]
+
+/-- … and fails exactly when some character is a lowercase letter -/
+theorem isAllUpper_false_iff (U : UnicodeOps) (s : Str) :
+    isAllUpper U s = false ↔ ∃ c ∈ s, U.isLower c = true := by
+  simp [isAllUpper]
+
+/-- a name with a lowercase letter is not all capitals -/
+theorem isAllUpper_of_lower (U : UnicodeOps) (s : Str) (c : Char) (hc : c ∈ s) (hl : U.isLower c = true) :
+    isAllUpper U s = false := (isAllUpper_false_iff U s).2 ⟨c, hc, hl⟩
+
+/-- on an ASCII character "fixed by upper-casing" is "not a lowercase letter" -/
+theorem upperFixed_iff_notLower (c : Char) : asciiUpper c = c ↔ isAsciiLower c = false := by
+  constructor
+  · intro h
+    cases hl : isAsciiLower c with
+    | false => rfl
+    | true => exact absurd h (lower_upperNe c hl)
+  · intro h
+    unfold isAsciiLower at h
+    unfold asciiUpper
+    split <;> first | rfl | simp at h
+
+/-- **the bridge**: over ASCII names the repaired test is the old one, `to_ascii_uppercase() == self` -/
+theorem isAllUpper_ascii (U : UnicodeOps) (hU : U.AsciiCorrect) (s : Str) (h : ∀ c ∈ s, c.toNat < 128) :
+    isAllUpper U s = (toAsciiUpper s == s) := by
+  induction s with
+  | nil => rfl
+  | cons a t ih =>
+    have ht := ih (fun x hx => h x (by simp [hx]))
+    have ha := hU.lower a (h a (by simp))
+    simp only [isAllUpper, List.any_cons, Bool.not_or] at ht ⊢
+    rw [ht, ha]
+    simp only [toAsciiUpper, List.map_cons]
+    cases hl : isAsciiLower a with
+    | false =>
+      have := (upperFixed_iff_notLower a).2 hl
+      rw [this]
+      simp
+    | true =>
+      have := lower_upperNe a hl
+      simp [this]
+
+/-- over ASCII names `to_pascal_case` / `to_snake_case`'s flag does not depend on which (correct) table is used -/
+theorem isAllUpper_asciiTable (U : UnicodeOps) (hU : U.AsciiCorrect) (s : Str) (h : ∀ c ∈ s, c.toNat < 128) :
+    isAllUpper U s = isAllUpper UnicodeOps.ascii s := by
+  rw [isAllUpper_ascii U hU s h, isAllUpper_ascii _ UnicodeOps.ascii_correct s h]
+
+theorem toPascal_asciiTable (U : UnicodeOps) (hU : U.AsciiCorrect) (s : Str) (h : ∀ c ∈ s, c.toNat < 128) :
+    toPascal U s = toPascal UnicodeOps.ascii s := by
+  unfold toPascal; rw [isAllUpper_asciiTable U hU s h]
+
+/-- the form used by the scope lemmas: an ASCII lowercase letter in the name switches the test off -/
+theorem isAllUpper_asciiLower (U : UnicodeOps) (hU : U.AsciiCorrect) (s : Str) (c : Char) (hc : c ∈ s)
+    (hl : isAsciiLower c = true) : isAllUpper U s = false :=
+  isAllUpper_of_lower U s c hc (by rw [hU.lower c (lower_ascii c hl)]; exact hl)
 
 theorem pascalGo_field (tl : Bool) (s : Str) (h : ∀ c ∈ s, asciiLower c = c) :
     ∀ cap, pascalGo tl cap s = fieldPascalGo cap s := by
